@@ -28,6 +28,8 @@ type Summary struct {
 	LenEq map[int]Lin
 	// NonEmpty[i]: slice result i has length >= 1
 	MinLen map[int]int64
+	// NonNeg[i]: integer result i is >= 0 on every normal return
+	NonNeg map[int]bool
 }
 
 // Engine holds memoised linearisations, summaries and cursor invariants.
@@ -574,6 +576,16 @@ func (e *Engine) lin0(v ssa.Value) Lin {
 		if b, ok := x.Call.Value.(*ssa.Builtin); ok && b.Name() == "copy" && e.CopyAsLenSrc {
 			return e.LenOf(x.Call.Args[1])
 		}
+		// library identity: protowire.SizeBytes(n) = SizeVarint(uint64(n)) + n
+		if kit.CalleeName(x) == "google.golang.org/protobuf/encoding/protowire.SizeBytes" && len(x.Call.Args) == 1 {
+			k := e.PureKey("google.golang.org/protobuf/encoding/protowire.SizeVarint", x.Call.Args[0])
+			if ks, ok := k.(string); ok {
+				if _, seen := e.keyType[ks]; !seen {
+					e.keyType[ks] = x.Type()
+				}
+			}
+			return Var(Sym{K: k}).Add(e.Lin(x.Call.Args[0]))
+		}
 		return e.opaque(v)
 	case *ssa.UnOp:
 		if x.Op == token.MUL {
@@ -866,6 +878,23 @@ func (e *Engine) globalFacts(fn *ssa.Function) []gfact {
 				c := call
 				out = append(out, gfact{f, func(b *ssa.BasicBlock, i int) bool { return errNilEdgeDominates(c, b, i) }})
 			}
+		}
+		for ri, nn := range sum.NonNeg {
+			if !nn {
+				continue
+			}
+			var res ssa.Value
+			if call.Call.Signature().Results().Len() == 1 {
+				res = call
+			} else {
+				res = kit.ExtractOf(call, ri)
+			}
+			if res == nil {
+				continue
+			}
+			f := Fact{e.Lin(res), fmt.Sprintf("post-condition of %s: result %d >= 0 on every normal return", kit.ShortName(name), ri)}
+			c := call
+			out = append(out, gfact{f, func(b *ssa.BasicBlock, i int) bool { return errNilEdgeDominates(c, b, i) }})
 		}
 		for ri, ml := range sum.MinLen {
 			var res ssa.Value
